@@ -100,7 +100,7 @@ fn template_line(rng: &mut Rng, vocab: &[String]) -> String {
     let num = |rng: &mut Rng| NUMBERS[rng.below(NUMBERS.len())].to_string();
     let dim = |rng: &mut Rng| DIMENS[rng.below(DIMENS.len())].to_string();
     let cs = |rng: &mut Rng| vocab[rng.below(vocab.len())].clone();
-    match rng.below(24) {
+    match rng.below(30) {
         0 => format!("\\count{}={} ", num(rng), num(rng)),
         1 => format!("\\catcode{}={} ", num(rng), num(rng)),
         2 => format!("\\dimen{}={} ", num(rng), dim(rng)),
@@ -124,7 +124,51 @@ fn template_line(rng: &mut Rng, vocab: &[String]) -> String {
         20 => format!("\\input {} ", ["fa", "nosuch", "a:b", "a>b", ".", "", "fa.tex.tex", "é"][rng.below(8)]),
         21 => format!("\\mathcode{}={} \\the\\mathcode{} ", num(rng), num(rng), num(rng)),
         22 => format!("\\dimen0={} \\multiply\\dimen0 by {} \\the\\dimen0 ", dim(rng), num(rng)),
-        _ => format!("é\\count{}=x ", num(rng)),
+        23 => format!("é\\count{}=x ", num(rng)),
+        // Multi-step sequences that walk a register to a limit and then use it everywhere a
+        // number, dimension or glue can be scanned.
+        24 => {
+            let setup = [
+                "\\count1=-2147483647 \\advance\\count1 by -1 ",
+                "\\count1=2147483647 ",
+                "\\count1=-2147483647 ",
+                "\\count1=1073741824 \\multiply\\count1 by 2 ",
+                "\\count1=-1073741824 \\multiply\\count1 by 2 ",
+                "\\dimen1=16383.99999pt \\advance\\dimen1 by \\dimen1 ",
+                "\\dimen1=-16383.99999pt \\advance\\dimen1 by \\dimen1 \\advance\\dimen1 by -1sp \\advance\\dimen1 by -1sp ",
+                "\\skip1=16383.99999pt plus 16383.99999fil minus 16383.99999fill \\advance\\skip1 by \\skip1 ",
+            ][rng.below(8)];
+            let uses = [
+                "\\dimen0=\\count1 sp ", "\\dimen0=-\\count1 pt ", "\\skip0=\\count1 sp plus \\count1 fil minus -\\count1 sp ",
+                "\\count2=-\\count1 ", "\\count\\count1=1 ", "\\catcode\\count1=1 ", "\\ifnum\\count1<-\\count1 a\\fi ",
+                "\\ifcase\\count1 a\\or b\\fi ", "\\ifodd\\count1 a\\fi ", "\\divide\\count1 by -1 ", "\\multiply\\count1 by -1 ",
+                "\\advance\\count1 by \\count1 ", "\\count3=\\dimen1 ", "\\dimen2=-\\dimen1 ", "\\dimen2=2\\dimen1 ", "\\dimen2=\\count1\\dimen1 ",
+                "\\multiply\\dimen1 by \\count1 ", "\\divide\\dimen1 by \\count1 ", "\\skip2=-\\skip1 ", "\\skip2=\\count1\\skip1 ",
+                "\\multiply\\skip1 by 2 ", "\\the\\count1 \\the\\dimen1 \\the\\skip1 ", "\\chardef\\xa=\\count1 ", "\\mathchardef\\xa=\\count1 ",
+                "\\endlinechar=\\count1 ", "\\openin\\count1=fa ", "\\read\\count1 to\\xa ", "\\dimen2=\\count1 truein ", "\\dimen2=\\count1 em ",
+                "\\dimen2=.5\\dimen1 ", "\\dimen2=1.99999\\dimen1 ", "\\newInt\\xi \\xi=\\count1 \\advance\\xi by \\xi ",
+            ];
+            let mut s = setup.to_string();
+            for _ in 0..(1 + rng.below(3)) {
+                s.push_str(uses[rng.below(uses.len())]);
+            }
+            s
+        }
+        _ => {
+            // errors while something is pending: inside a macro argument, a \\read group, a
+            // conditional being skipped, an alignment of prefixes
+            [
+                "\\def\\xa#1#2{#1}\\xa{\\count ", "\\def\\xa#1.{#1}\\xa abc", "\\iffalse\\ifnum ", "\\global\\long\\outer ",
+                "\\global\\global\\global\\count1=1 ", "\\expandafter\\expandafter\\expandafter ", "\\noexpand ", "\\let\\xa ", "\\let\\xa= ",
+                "\\toks1={\\iftrue ", "\\the\\toks ", "\\the\\the\\count1 ", "\\the\\noexpand\\count1 ", "\\countdef\\xa ", "\\newInt ", "\\newInt 5 ",
+                "\\read 0 to ", "\\read 0 ", "\\openin ", "\\openin 1 ", "\\closein ", "\\ifeof ", "\\input ", "\\endinput\\endinput ",
+                "\\jobname\\jobname ", "\\dumpFormat=7 \\dump ", "\\dumpFormat=1 \\dumpValidate=1 \\dump ", "\\fi\\fi\\else\\or ", "\\ifcase ", "\\ifcase -1 \\or a\\else b\\fi ",
+                "\\ifcase-2147483647 \\or\\or\\or\\fi ", "\\ifcase 2147483647 \\or ", "}}}} ", "{{{{ ", "#1#2## ", "\\def\\xa#1#1{} ", "\\def\\xa#0{} ", "\\def\\xa#",
+                "\\def\\xa{#} ", "\\def\\xa{#3} ", "\\def\\xa#1{##1#} \\xa a", "\\catcode`\\{=12 { ", "\\catcode`\\\\=12 \\relax ", "\\catcode`\\%=12 % ",
+                "\\catcode32=12 \\count1 = 1 ", "\\catcode13=12 ", "\\endlinechar=-1 ", "\\endlinechar=92 ", "\\endlinechar=37 ", "\\endlinechar=123 ",
+            ][rng.below(50)]
+            .to_string()
+        }
     }
 }
 
